@@ -32,6 +32,10 @@ CLAIMED = {
     "C18": dict(engine="channel", design="3/C18", technique="TLA+ model checking (TLC) of queue back-pressure + parked-goroutine observation on the real channel",
                 text="TLC checks never-blocks (non-blocking mode), no-space-only-when-full (action property), the accepted-but-unsent bound, cancel/close-no-bytes and "
                      "that blocked writers eventually return (liveness); on the real code the scheduler reads goroutine wait states, so 'parked in select' is observed, not timed."),
+    "C19": dict(engine="pool", design="3/C19", technique="TLA+ model checking (TLC) of Pool.tla Get/Put histories + replay and trace validation on the real pbytes/pbuffer pools",
+                text="TLC checks C19_Cap/C19_ShardCap/C19_Exclusive and the pmath operator table over all Get/Put/Put-foreign histories up to the bound for the default "
+                     "and several small custom pools; state-graph edge covers and random histories run on the real pools with buffers tagged by identity and are "
+                     "validated against the spec; pmath and pool parameters are compared value by value with the model for 0..2^17+2 and around every power of two."),
 }
 NA = {}
 for p in props:
@@ -61,6 +65,7 @@ engines = {}
 for pid, c in CLAIMED.items():
     engines.setdefault(c["engine"], []).append(pid)
 ENG = {
+    "pool": ("spec/Pool.tla + spec/TracePool.tla + harness/cmd/driver/pool.go", "TLA+ spec of the size-class pool; TLC exhaustive histories; replay + trace validation on the real pools"),
     "channel": ("spec/Channel.tla + spec/TraceChannel.tla + harness/cmd/driver/chan.go", "TLA+ spec of writer/sender/closer/reader protocol; TLC exhaustive checking; state-graph edge-cover replay through a gate scheduler; TLC trace validation of recorded executions"),
 }
 manifest = {
